@@ -123,3 +123,19 @@ CHECKS["C17"] = {
             "under the layout of the memory the array lives in.",
     "note": "Index types wider than 16 bits are not exhaustive. Trusted: TLC, harness/ptr_driver.cpp, g++ 12.",
 }
+
+CHECKS["C11"] = {
+    "technique": "TLA+ Contracts Invoke (argument/result fidelity), SbxContract (per-instance/per-incarnation symbol "
+                 "lookup, function-address stability) and CallsContract (own-library dispatch); TLC-enumerated lookup "
+                 "histories and call trees replayed on vm and dylib backends; TLC trace validation",
+    "text": "TLC explores every history of create/destroy/invoke-by-name/get-function-address over two instances bound "
+            "to different libraries exporting the same names (and re-creation against the other library) and every edge "
+            "is replayed on the foreign-ABI backend whose invoke address and function-pointer representation differ; a "
+            "family of 18 signatures (0-12 parameters; every integer kind, floats, data pointers, callbacks; every return "
+            "kind) is invoked with one-at-a-time boundary values in plain/tainted/opaque form and TLC judges what the "
+            "guest function observed (values in the guest ABI, exactly once) and what came back; all call trees within "
+            "bounds run on two instances created from different libraries (vm and real dlopen) and the function that runs "
+            "must be the one of the instance's own library.",
+    "note": "By-value structs are in C08. Signature family is hand-listed (18), not generated. Flag-abort build for the "
+            "family. Trusted: TLC, harness/sig_driver.cpp, sbx_driver.cpp, tree_driver.cpp, vm backend, g++ 12.",
+}
